@@ -111,6 +111,9 @@ fn history<const MAX: usize>(rep: &mut Report, r: &mut Rng) {
     if raw_entries(&c) != shadow || c.limit() != g.limit() {
         rep.violation("clone|differs", J::Null);
     }
+    if cfg!(miri) {
+        return;
+    }
     // loading hands the CPU the table's own address with that limit
     let (_, evs) = trapemu::trapped(|| unsafe { g.load_unsafe() });
     rep.eval();
@@ -158,6 +161,7 @@ fn from_raw<const MAX: usize>(rep: &mut Report, r: &mut Rng) {
 }
 
 pub fn run(a: &Args, rep: &mut Report) {
+    #[cfg(not(miri))]
     trapemu::install();
     let mut r = Rng::derive(a.seed, "c14", a.shard);
     let n = a.budget(3_000, 1_000_000);
@@ -172,7 +176,7 @@ pub fn run(a: &Args, rep: &mut Report) {
         from_raw::<3>(rep, &mut r);
         from_raw::<8>(rep, &mut r);
         from_raw::<9>(rep, &mut r);
-        if i % 200 == 0 {
+        if i % 200 == 0 && !cfg!(miri) {
             history::<8192>(rep, &mut r);
             from_raw::<8192>(rep, &mut r);
         }
